@@ -525,9 +525,15 @@ func (w *Writer) enter() bool {
 	w.mutex.Lock()
 	defer w.mutex.Unlock()
 	if w.closed {
+		if verifOn {
+			verifEvent("W.Enter", w, false)
+		}
 		return false
 	}
 	w.group.Add(1)
+	if verifOn {
+		verifEvent("W.Enter", w, true)
+	}
 	return true
 }
 
@@ -558,6 +564,9 @@ func (w *Writer) Close() error {
 	// fail with io.ErrClosedPipe. Mutation of this field is synchronized on the
 	// writer's mutex to ensure that no more increments of the wait group are
 	// performed afterwards (which could otherwise race with the Wait below).
+	if verifOn {
+		verifEvent("W.CloseBegin", w)
+	}
 	w.closed = true
 
 	// close all writers to trigger any pending batches
@@ -565,12 +574,18 @@ func (w *Writer) Close() error {
 		writer.close()
 	}
 
+	if verifOn {
+		verifEvent("W.CloseMarked", w, len(w.writers))
+	}
 	for partition := range w.writers {
 		delete(w.writers, partition)
 	}
 
 	w.mutex.Unlock()
 	w.group.Wait()
+	if verifOn {
+		verifEvent("W.CloseReturn", w)
+	}
 
 	if w.transport != nil {
 		w.transport.CloseIdleConnections()
@@ -617,9 +632,15 @@ func (w *Writer) WriteMessages(ctx context.Context, msgs ...Message) error {
 	defer w.leave()
 
 	if len(msgs) == 0 {
+		if verifOn {
+			verifEvent("W.Empty", w)
+		}
 		return nil
 	}
 
+	if verifOn {
+		verifEvent("W.Begin", w, &msgs[0], len(msgs))
+	}
 	balancer := w.balancer()
 	batchBytes := w.batchBytes()
 
@@ -631,6 +652,9 @@ func (w *Writer) WriteMessages(ctx context.Context, msgs ...Message) error {
 			// are that the program will check if WriteMessages returned a
 			// MessageTooLargeError, discard the message that was exceeding
 			// the maximum size, and try again.
+			if verifOn {
+				verifEvent("W.Reject", &msgs[0], "toolarge", i)
+			}
 			return messageTooLarge(msgs, i)
 		}
 	}
@@ -645,11 +669,17 @@ func (w *Writer) WriteMessages(ctx context.Context, msgs ...Message) error {
 	for i, msg := range msgs {
 		topic, err := w.chooseTopic(msg)
 		if err != nil {
+			if verifOn {
+				verifEvent("W.Reject", &msgs[0], "topic", i)
+			}
 			return err
 		}
 
 		numPartitions, err := w.partitions(ctx, topic)
 		if err != nil {
+			if verifOn {
+				verifEvent("W.Reject", &msgs[0], "meta", i)
+			}
 			return err
 		}
 
@@ -661,13 +691,22 @@ func (w *Writer) WriteMessages(ctx context.Context, msgs ...Message) error {
 		}
 
 		assignments[key] = append(assignments[key], int32(i))
+		if verifOn {
+			verifEvent("W.Assign", &msgs[0], i, topic, partition)
+		}
 	}
 
 	batches, err := w.batchMessages(msgs, assignments)
 	if err != nil {
+		if verifOn {
+			verifEvent("W.Return", &msgs[0], verifErrCode(err))
+		}
 		return err
 	}
 	if w.Async {
+		if verifOn {
+			verifEvent("W.Return", &msgs[0], "async")
+		}
 		return nil
 	}
 
@@ -676,6 +715,9 @@ func (w *Writer) WriteMessages(ctx context.Context, msgs ...Message) error {
 	for batch := range batches {
 		select {
 		case <-done:
+			if verifOn {
+				verifEvent("W.Return", &msgs[0], "ctx")
+			}
 			return ctx.Err()
 		case <-batch.done:
 			if batch.err != nil {
@@ -685,6 +727,9 @@ func (w *Writer) WriteMessages(ctx context.Context, msgs ...Message) error {
 	}
 
 	if !hasErrors {
+		if verifOn {
+			verifEvent("W.Return", &msgs[0], "ok")
+		}
 		return nil
 	}
 
@@ -694,6 +739,9 @@ func (w *Writer) WriteMessages(ctx context.Context, msgs ...Message) error {
 		for _, i := range indexes {
 			werr[i] = batch.err
 		}
+	}
+	if verifOn {
+		verifEvent("W.Return", &msgs[0], "werr", verifWriteErrors(werr))
 	}
 	return werr
 }
@@ -714,9 +762,15 @@ func (w *Writer) batchMessages(messages []Message, assignments map[topicPartitio
 		// writer for a partition whose first writer is still draining its
 		// queue would break the per-partition ordering. Nothing has been
 		// queued yet, so the call fails as if it had arrived after Close.
+		if verifOn {
+			verifEvent("W.Reject", &messages[0], "closed", 0)
+		}
 		return nil, io.ErrClosedPipe
 	}
 
+	if verifOn {
+		verifEvent("W.Batch", &messages[0])
+	}
 	if w.writers == nil {
 		w.writers = map[topicPartition]*partitionWriter{}
 	}
@@ -726,6 +780,9 @@ func (w *Writer) batchMessages(messages []Message, assignments map[topicPartitio
 		if writer == nil {
 			writer = newPartitionWriter(w, key)
 			w.writers[key] = writer
+			if verifOn {
+				verifEvent("W.NewPW", w, writer, &writer.queue, key.topic, key.partition)
+			}
 		}
 		wbatches := writer.writeMessages(messages, indexes)
 
@@ -734,6 +791,9 @@ func (w *Writer) batchMessages(messages []Message, assignments map[topicPartitio
 		}
 	}
 
+	if verifOn {
+		verifEvent("W.Batched", &messages[0])
+	}
 	return batches, nil
 }
 
@@ -952,9 +1012,15 @@ func (b *batchQueue) Put(batch *writeBatch) bool {
 	defer b.cond.Broadcast()
 
 	if b.closed {
+		if verifOn {
+			verifEvent("Q.Put", b, batch, false)
+		}
 		return false
 	}
 	b.queue = append(b.queue, batch)
+	if verifOn {
+		verifEvent("Q.Put", b, batch, true)
+	}
 	return true
 }
 
@@ -967,12 +1033,18 @@ func (b *batchQueue) Get() *writeBatch {
 	}
 
 	if len(b.queue) == 0 {
+		if verifOn {
+			verifEvent("Q.Get", b, nil)
+		}
 		return nil
 	}
 
 	batch := b.queue[0]
 	b.queue[0] = nil
 	b.queue = b.queue[1:]
+	if verifOn {
+		verifEvent("Q.Get", b, batch)
+	}
 
 	return batch
 }
@@ -983,6 +1055,9 @@ func (b *batchQueue) Close() {
 	defer b.cond.Broadcast()
 
 	b.closed = true
+	if verifOn {
+		verifEvent("Q.Close", b)
+	}
 }
 
 func newBatchQueue(initialSize int) batchQueue {
@@ -1054,15 +1129,27 @@ func (ptw *partitionWriter) writeMessages(msgs []Message, indexes []int32) map[*
 		if batch == nil {
 			batch = ptw.newWriteBatch()
 			ptw.currBatch = batch
+			if verifOn {
+				verifEvent("PW.NewBatch", ptw, batch)
+			}
 		}
 		if !batch.add(msgs[i], batchSize, batchBytes) {
+			if verifOn {
+				verifEvent("PW.Detach", ptw, batch, "nofit", int64(msgs[i].totalSize()))
+			}
 			batch.trigger()
 			ptw.queue.Put(batch)
 			ptw.currBatch = nil
 			goto assignMessage
 		}
 
+		if verifOn {
+			verifEvent("PW.Add", ptw, batch, &msgs[0], i, int64(msgs[i].totalSize()))
+		}
 		if batch.full(batchSize, batchBytes) {
+			if verifOn {
+				verifEvent("PW.Detach", ptw, batch, "full", 0)
+			}
 			batch.trigger()
 			ptw.queue.Put(batch)
 			ptw.currBatch = nil
@@ -1096,7 +1183,13 @@ func (ptw *partitionWriter) awaitBatch(batch *writeBatch) {
 		// can lock pw.mutex it will either have filled the batch and enqueued it which will mean
 		// pw.currBatch != batch so we just move on.
 		// Otherwise, we detach the batch from the ptWriter and enqueue it for writing.
+		if verifOn {
+			verifEvent("B.TimerFire", ptw, batch, ptw.currBatch == batch)
+		}
 		if ptw.currBatch == batch {
+			if verifOn {
+				verifEvent("PW.Detach", ptw, batch, "timer", 0)
+			}
 			ptw.queue.Put(batch)
 			ptw.currBatch = nil
 		}
@@ -1145,6 +1238,9 @@ func (ptw *partitionWriter) writeBatch(batch *writeBatch) {
 		})
 
 		start := time.Now()
+		if verifOn {
+			verifEvent("PW.Attempt", ptw, batch, attempt)
+		}
 		res, err = ptw.w.produce(key, batch)
 
 		stats.writes.observe(1)
@@ -1162,6 +1258,9 @@ func (ptw *partitionWriter) writeBatch(batch *writeBatch) {
 			stats.waitTime.observe(int64(res.Throttle))
 		}
 
+		if verifOn {
+			verifEvent("PW.AttemptDone", ptw, batch, attempt, verifErrCode(err))
+		}
 		if err == nil {
 			break
 		}
@@ -1191,9 +1290,15 @@ func (ptw *partitionWriter) writeBatch(batch *writeBatch) {
 	}
 
 	if ptw.w.Completion != nil {
+		if verifOn {
+			verifEvent("B.Completion", ptw, batch, verifErrCode(err))
+		}
 		ptw.w.Completion(batch.msgs, err)
 	}
 
+	if verifOn {
+		verifEvent("B.Complete", ptw, batch, verifErrCode(err))
+	}
 	batch.complete(err)
 }
 
@@ -1203,6 +1308,9 @@ func (ptw *partitionWriter) close() {
 
 	if ptw.currBatch != nil {
 		batch := ptw.currBatch
+		if verifOn {
+			verifEvent("PW.Detach", ptw, batch, "close", 0)
+		}
 		ptw.queue.Put(batch)
 		ptw.currBatch = nil
 		batch.trigger()
